@@ -89,8 +89,10 @@ func (this *Item) action(sym string, nextState int) action.Action {
 	return action.ERROR
 }
 
+// canRecover reports whether the item is an error alternative with the dot in front of the
+// error symbol, i.e. whether a state holding it shifts the error symbol.
 func (this *Item) canRecover() bool {
-	return this.Len > 0 && this.Body[0] == "error"
+	return this.Pos == 0 && this.Len > 0 && this.Body[0] == "error"
 }
 
 // Equals weturns whether two Items are equal based on their ProdIdx, Pos and NextToken.
